@@ -30,8 +30,17 @@ def generate(seed, tier):
     c = g.int(0, 9)
     if c <= 2:
         p = S.add_file(g, d, 30000)
-        d['recv_fail'] = {p: {'at': g.pick(['start', 'mid', 'end']), 'n': g.int(1, 3), 'reason': reason.hex()}}
+        d['recv_fail'] = {p: {'at': g.pick(['start', 'mid', 'end']), 'n': g.int(1, 3), 'reason': reason.hex(), 'then_close': g.chance(0.4)}}
         ops.append({'op': 'pull', 'path': p, 'dest': g.pick(['bytesio', 'file']), 'cb': g.pick([None, None, 'count'])})
+        if g.chance(0.3):
+            # the progress callback uses the device itself (a stat() on another stream): that reader takes the pull's FAIL -- and the CLSE
+            # behind it -- off the wire; the pull still reports the device's reason (sync API; the async callback cannot await)
+            ops[-1]['cb'] = 'reenter'
+            ops[-1]['reenter_path'] = '/sdcard/reenter'
+            d['fs']['/sdcard/reenter'] = {'mode': 0o100644, 'mtime': 5, 'content': {'seed': 1, 'size': 10, 'alpha': 'bin'}, 'records': [100]}
+            d['recv_fail'][p]['at'] = g.pick(['mid', 'end'])
+            d['fs'][p]['content']['size'] = max(d['fs'][p]['content']['size'], 3000)
+            d['fs'][p]['records'] = [g.pick([500, 1000])]
     elif c <= 7:
         d['maxdata'] = g.pick([4096, 4096, 8192, 65536, 262144])
         size = g.pick([0, 1, 100, 3000, g.int(4000, 60000), g.int(4000, 60000), g.int(10000, 200000)])
